@@ -86,6 +86,7 @@ def timer_worker(a):
     try:
         for rnd in range(a["rounds"]):
             base = 100 * rnd
+            late = []
             # clients finished in every possible way before their timer expires
             for k in range(32):
                 cid = base + k + 1
@@ -114,13 +115,20 @@ def timer_worker(a):
                     for ev in ({"t": "host", "id": cid, "name": "h"}, {"t": "ident", "id": cid, "name": "i"}, {"t": "nick", "id": cid, "name": "n"},
                                {"t": "userinfo", "id": cid, "user": "u", "real": "r"}):
                         s.do(ev)
-                    s.do({"t": "disconnect" if how == 6 else "registered", "id": cid})
+                    if k >= 24:
+                        late.append({"t": "disconnect" if how == 6 else "registered", "id": cid})
+                    else:
+                        s.do({"t": "disconnect" if how == 6 else "registered", "id": cid})
                 else:
                     # left waiting on purpose: all data, query unanswered -> the real timer accepts it
                     for ev in ({"t": "host", "id": cid, "name": "h"}, {"t": "ident", "id": cid, "name": "i"}, {"t": "nick", "id": cid, "name": "n"},
                                {"t": "userinfo", "id": cid, "user": "u", "real": "r"}):
                         s.do(ev)
             s.do({"t": "stats"})
+            # the withdrawal / registration of the last soft-done clients is the very last thing the daemon reads before the
+            # silence (no sync line after it): nothing may speak for them when their timers would have expired
+            for ev in late:
+                s.do_nosync(ev)
             time.sleep(1.6)
             s.do({"t": "stats"})
             s.do({"t": "audit"})
@@ -147,8 +155,11 @@ def run(chk, tier, scale=1.0):
         rng = random.Random("c10/%d/%d" % (chk.seed, i))
         nids = rng.choice([5, 20, 100, 500])
         cfg = pcommon.random_config(rng, want_class=(rng.random() < 0.2))
-        jobs.append(dict(build=b, config=cfg.to_json(), seed=rng.randrange(1 << 30), n=3000, ids=list(range(1, nids + 1)), props=PROPS,
-                         opts={"weights": {"stats": 6, "announce": 14, "reannounce": 5, "disconnect": 6, "registered": 3, "stray": 2}, "max_open": nids},
+        idl = list(range(1, nids + 1))
+        if i % 3 == 1:
+            idl = idl[:max(3, nids - 6)] + [-2147483648, -2000000000, 2000000000, 2147483647, -2, 1 + (1 << 20)]
+        jobs.append(dict(build=b, config=cfg.to_json(), seed=rng.randrange(1 << 30), n=3000, ids=idl, props=PROPS,
+                         opts={"weights": {"stats": 6, "announce": 14, "reannounce": 5, "disconnect": 6, "registered": 3, "stray": 2, "noise": 3}, "max_open": nids},
                          leaks=True, shrink=False, want_sample=(i < 2)))
     res = vcommon.pmap(prun.hist_worker, jobs)
     prun.fold(chk, "C10", res, crash_is_violation=True)
